@@ -52,7 +52,7 @@ for n in (1, 2, 3, 4):
         os.makedirs(out, exist_ok=True)
         shutil.copy(diff, os.path.join(out, 'patch.diff')); shutil.copy(demo, os.path.join(out, 'demo.py'))
         if notetxt: open(os.path.join(out, 'note.md'), 'w').write(notetxt)
-        meta = {'property': PID, 'source': 'independent sub-agent given only the property text and a scratch worktree' + (f' (round {WAVE}: consistent across the five models, no caches/state' + ('; mechanisms of earlier rounds excluded' if WAVE in ('3', '4') else '') + ')' if WAVE else ''),
+        meta = {'property': PID, 'source': 'independent sub-agent given only the property text and a scratch worktree' + (f' (round {WAVE}: consistent across the five models, no caches/state' + ('; mechanisms of earlier rounds excluded' if WAVE in ('3', '4', '5') else '') + ')' if WAVE else ''),
                 'needs_to_manifest': notetxt.strip()[:900],
                 'confirmed': {'demo_exit_clean_tree': c0, 'demo_exit_with_change': c1, 'existing_tests_with_change': '101 passed',
                               'commands': ['git worktree add <tmp> HEAD', 'python demo.py (clean)', 'git apply patch.diff', 'pytest -q (101 passed)', 'python demo.py (fails)']},
